@@ -1,6 +1,7 @@
 package main
 
 import (
+	"encoding/json"
 	"fmt"
 	"strings"
 
@@ -74,11 +75,27 @@ func catalogue(form string) []corruption {
 			}
 		}
 		out = append(out, corruption{"no_size_or_dist", "", ""})
+	// the same commands through the real cobra command line (cmd/ + gfio), where some validations live
+	case "cli-variants", "cli-samvariants":
+		out = append(out, corruption{"cli_anno_suffix", "", ""}, corruption{"cli_missing_file", "", ""}, corruption{"empty_file", "cli", ""})
+	case "cli-topranking":
+		out = append(out, corruption{"cli_query_suffix", "", ""}, corruption{"cli_target_suffix", "", ""}, corruption{"cli_no_reference", "", ""}, corruption{"cli_no_size", "", ""}, corruption{"cli_missing_file", "", ""})
+	case "cli-toma":
+		out = append(out, corruption{"cli_window_start_gt_end", "", ""}, corruption{"cli_old_and_new_flags", "", ""}, corruption{"cli_missing_file", "", ""}, corruption{"empty_file", "cli", ""})
 	}
 	return out
 }
 
-var c18Forms = append(append([]string{}, allCmds...), "topranking-csv")
+func argIndex(a []string, flag string) int {
+	for i, x := range a {
+		if x == flag {
+			return i
+		}
+	}
+	return -1
+}
+
+var c18Forms = append(append([]string{}, allCmds...), "topranking-csv", "cli-variants", "cli-samvariants", "cli-topranking", "cli-toma")
 
 type fastaRec struct {
 	head string
@@ -285,10 +302,85 @@ func applyCorruption(c *Case, k corruption, r *Rand) *Case {
 		}
 		lines[i] = strings.Join(f, ",") + "\n"
 		out.Files[k.File] = strings.Join(lines, "")
+	case "cli_anno_suffix", "cli_query_suffix", "cli_target_suffix":
+		flag := map[string]string{"cli_anno_suffix": "-a", "cli_query_suffix": "-q", "cli_target_suffix": "-t"}[k.Kind]
+		a := append([]string(nil), c.Opts.Args...)
+		i := argIndex(a, flag)
+		if i < 0 || i+1 >= len(a) {
+			return nil
+		}
+		old := a[i+1]
+		nn := strings.TrimSuffix(strings.TrimSuffix(strings.TrimSuffix(strings.TrimSuffix(old, ".gb"), ".gff"), ".fasta"), ".csv") + r.Pick(".txt", ".gbk", ".gff3", ".fas", "")
+		a[i+1] = nn
+		out.Files[nn] = out.Files[old]
+		out.Opts.Args = a
+	case "cli_missing_file":
+		a := append([]string(nil), c.Opts.Args...)
+		for i := range a {
+			if _, ok := c.Files[a[i]]; ok {
+				delete(out.Files, a[i])
+				break
+			}
+		}
+		out.Opts.Args = a
+	case "cli_no_reference":
+		a := append([]string(nil), c.Opts.Args...)
+		i := argIndex(a, "-r")
+		if i < 0 {
+			return nil
+		}
+		out.Opts.Args = append(a[:i:i], a[i+2:]...)
+	case "cli_no_size":
+		var a []string
+		for i := 0; i < len(c.Opts.Args); i++ {
+			x := c.Opts.Args[i]
+			if strings.HasPrefix(x, "--size-") || strings.HasPrefix(x, "--dist-") {
+				i++
+				continue
+			}
+			a = append(a, x)
+		}
+		out.Opts.Args = a
+	case "cli_window_start_gt_end":
+		L := samRefLen(&Case{Files: map[string]string{"sam": c.Files["in.sam"]}})
+		if L < 2 {
+			return nil
+		}
+		e := r.Range(1, L-1)
+		out.Opts.Args = append(append([]string(nil), stripFlags(c.Opts.Args, "--start", "--end")...), "--start", fmt.Sprint(r.Range(e+1, L)), "--end", fmt.Sprint(e))
+	case "cli_old_and_new_flags":
+		out.Opts.Args = append(append([]string(nil), stripFlags(c.Opts.Args, "--start", "--end")...), "--start", "1", "--trimend", "2")
 	default:
 		panic("unknown corruption " + k.Kind)
 	}
+	if k.Kind == "empty_file" && k.File == "cli" {
+		delete(out.Files, "cli")
+		for _, x := range c.Opts.Args {
+			if _, ok := c.Files[x]; ok {
+				out.Files[x] = ""
+				break
+			}
+		}
+	}
 	return &out
+}
+
+func stripFlags(a []string, flags ...string) []string {
+	var out []string
+	for i := 0; i < len(a); i++ {
+		skip := false
+		for _, f := range flags {
+			if a[i] == f {
+				skip = true
+			}
+		}
+		if skip {
+			i++
+			continue
+		}
+		out = append(out, a[i])
+	}
+	return out
 }
 
 func samRefLen(c *Case) int {
@@ -365,6 +457,13 @@ func genC18(r *Rand, tier string, ord int) *Trial {
 		if base == nil {
 			return nil
 		}
+	} else if strings.HasPrefix(form, "cli-") {
+		pk := genCmdCase(r, strings.TrimPrefix(form, "cli-"), caseSize{min3: true})
+		var ok bool
+		base, ok = cliCase(pk)
+		if !ok {
+			return nil
+		}
 	} else {
 		base = genCmdCase(r, form, caseSize{min3: true})
 	}
@@ -381,24 +480,26 @@ func genC18(r *Rand, tier string, ord int) *Trial {
 	b := P0()
 	b.Explicit = true
 	t.Runs = append([]RunCfg{b, b}, genRunCfgs(r, n)...)
-	// store the corrupted files alongside the base ones
-	for f, v := range cor.Files {
-		if v != base.Files[f] {
-			t.Case.Files["corrupt:"+f] = v
-		}
-	}
-	if fmt.Sprintf("%+v", cor.Opts) != fmt.Sprintf("%+v", base.Opts) {
-		t.Params["opts"] = "1"
-	}
-	t.Params["start"], t.Params["end"], t.Params["suffix"] = fmt.Sprint(cor.Opts.Start), fmt.Sprint(cor.Opts.End), cor.Opts.AnnoSuffix
-	if k.Kind == "no_size_or_dist" {
-		t.Params["nosize"] = "1"
-	}
+	cb, _ := json.Marshal(cor)
+	t.Params["corrupted"] = string(cb)
 	return t
 }
 
-// c18Cases splits the trial's stored case into the valid base case and the corrupted one.
+// c18Cases returns the valid base case and the corrupted one.
 func c18Cases(t *Trial) (base, cor *Case) {
+	if t.Params["corrupted"] == "" {
+		return c18CasesV1(t)
+	}
+	var c Case
+	if err := json.Unmarshal([]byte(t.Params["corrupted"]), &c); err != nil {
+		panic(err)
+	}
+	return &t.Case, &c
+}
+
+// c18CasesV1 reads the first replay-file layout (corrupted files stored under "corrupt:<name>"),
+// still used by the regression cases under /verif/findings.
+func c18CasesV1(t *Trial) (base, cor *Case) {
 	b := t.Case
 	b.Files = map[string]string{}
 	c := t.Case
@@ -419,11 +520,6 @@ func c18Cases(t *Trial) (base, cor *Case) {
 		fmt.Sscan(t.Params["start"], &c.Opts.Start)
 		fmt.Sscan(t.Params["end"], &c.Opts.End)
 		c.Opts.AnnoSuffix = t.Params["suffix"]
-		if t.Params["nosize"] == "1" {
-			o := &c.Opts
-			o.SizeTotal, o.SizeUp, o.SizeDown, o.SizeSide, o.SizeSame = 0, 0, 0, 0, 0
-			o.DistAll, o.DistUp, o.DistDown, o.DistSide, o.DistPush = 0, 0, 0, 0, 0
-		}
 	}
 	return &b, &c
 }
